@@ -54,16 +54,13 @@ def brace_scopes(toks):
 
 def find_fn(toks, path, name):
     """(start_idx, body_open_idx, body_close_idx) of `fn name` whose enclosing block headers match
-    the regexes in `path` (outer to inner, as a subsequence)."""
+    the regexes in `path` one for one (outer to inner)."""
     scopes = brace_scopes(toks)
     hits = []
     for i, t in enumerate(toks):
         if t.text == "fn" and i + 1 < len(toks) and toks[i + 1].text == name:
             chain = [join(toks[h:o]) for (o, c, h) in scopes if o < i < c]
-            k = 0
-            for hdr in chain:
-                if k < len(path) and re.search(path[k], hdr): k += 1
-            if k != len(path): continue
+            if len(chain) != len(path) or not all(re.search(p, h) for p, h in zip(path, chain)): continue
             # body: first '{' at bracket depth 0 after the parameter list
             j = i
             depth = 0
@@ -131,6 +128,7 @@ class Rule:
             m = find_pattern(self.pat, toks, pos)
             if not m: break
             b, e, env = m
+            if getattr(self, "post", None): env = self.post(env)
             line = toks[b].line
             new = instantiate(self.replacement, env, line, "rule:" + self.rid)
             log.append({"rule": self.rid, "fn": where, "repo_line": line,
@@ -359,7 +357,7 @@ def emit_fn(em, key, unit_fn, repo_toks, tpl_lines, relfile, report):
         # strip trailing line comments inside the clause
         req = re.sub(r"//[^\n]*", "", req)
         report["functions"][key]["requires"] = req
-        report.setdefault("_vacuity", []).append(vacuity_fn(key, toks[:body_open], params, req, report["self_type"]))
+        report.setdefault("_vacuity", []).append(vacuity_fn(key, toks[:body_open], params, req, unit_fn.get("self_type", report["self_type"])))
 
 
 def build(unit, repo_root, out_path, subst):
